@@ -381,8 +381,10 @@ class GridArr:
         cols, cint = self._axis(interp, k[1], C, node)
         if rint and cint:
             return self.cells[rows[0]][cols[0]]
-        if rint or cint:
-            raise Unsupported("1-D view of a grid")
+        if rint and not cint:
+            return GridRowView(self, rows[0], cols)
+        if cint:
+            raise Unsupported("column view of a grid")
         return GridArr(len(rows), len(cols), [[self.cells[r][c] for c in cols] for r in rows],
                        parent=self, index=[[(r, c) for c in cols] for r in rows], fresh_=self.fresh)
 
@@ -456,6 +458,41 @@ class GridArr:
         if self.is_concrete():
             return len(self.cells)
         return self.R
+
+
+class GridRowView:
+    """a[r] / a[r, c0:c1] of a grid of wells: a 1-D view that writes through."""
+    py_type = 'ndarray'
+    py_iterable = True
+
+    def __init__(self, grid, r, cols):
+        self.grid, self.r, self.cols = grid, r, cols
+
+    def sym_getitem(self, interp, k, node=None):
+        if isinstance(k, int) and -len(self.cols) <= k < len(self.cols):
+            return self.grid.cells[self.r][self.cols[k]]
+        if isinstance(k, int):
+            raise Raised('IndexError', getattr(node, 'lineno', None), 'index out of bounds', implicit=True)
+        raise Unsupported("row view index")
+
+    def sym_setitem(self, interp, k, value, node=None):
+        if isinstance(k, int) and -len(self.cols) <= k < len(self.cols):
+            self.grid.write_cells(interp, [(self.r, self.cols[k], value)], getattr(node, 'lineno', None))
+            return
+        raise Unsupported("row view store")
+
+    def sym_iterate(self, interp, node=None):
+        return [self.grid.cells[self.r][c] for c in self.cols]
+
+    def sym_len(self, interp, node=None):
+        return len(self.cols)
+
+    def sym_getattr(self, interp, attr, node=None):
+        if attr == 'shape':
+            return (len(self.cols),)
+        if attr == 'size':
+            return len(self.cols)
+        raise Unsupported(f"ndarray.{attr} on a row view")
 
 
 class GridFlat:
